@@ -57,8 +57,39 @@ namespace
     using TMV = Tracked<14, 1, false, true, 8>;   // small but throwing move: heap
     using AL = Tracked<15, 1, true, true, 16>;    // over-aligned for the two-word buffer: heap
     using SP = std::shared_ptr<int>;
-    constexpr int NT = 8;
-    const char* const tnames[NT] = {"int", "S1_inplace", "S2_inplace", "LG_heap", "TMV_heap", "AL_heap", "string_heap", "shared_ptr_inplace"};
+    // A reference-like payload (as a tuple of references or vector<bool>::reference is): copying it rebinds, assigning
+    // to it WRITES THROUGH to the cell it designates.  Small and nothrow-movable, so it is stored in place.  A container
+    // must move and copy it with its constructors; running its assignment operator overwrites the caller's cells.
+    constexpr int NCELLS = 6;
+    int g_cells[NCELLS];
+    inline int cell_value(int i) { return 7000 + i; }
+    struct RL
+    {
+        int* p;
+        explicit RL(int* q) noexcept : p(q) {}
+        RL(const RL& o) noexcept : p(o.p) {}
+        RL(RL&& o) noexcept : p(o.p) {}
+        RL& operator=(const RL& o) noexcept { *p = *o.p; return *this; }
+        RL& operator=(RL&& o) noexcept { *p = *o.p; return *this; }
+    };
+    // A heap-stored payload with an additional copy constructor from a non-const lvalue (counted).  xtl::any copies
+    // its content out of a `const any&`, so that overload must never be chosen by a copy of an any.
+    uint64_t g_nonconst_copies = 0;
+    struct NK : Tracked<19, 40, true, true, 8>
+    {
+        using Base = Tracked<19, 40, true, true, 8>;
+        explicit NK(uint64_t v) : Base(v) {}
+        NK(const NK& o) : Base(static_cast<const Base&>(o)) {}
+        NK(NK& o) : Base(static_cast<const Base&>(o)) { ++g_nonconst_copies; }
+        NK(NK&& o) noexcept : Base(static_cast<Base&&>(o)) {}
+        NK& operator=(const NK&) = default;
+        NK& operator=(NK&&) = default;
+    };
+    constexpr int NT = 10;
+    const char* const tnames[NT] = {"int", "S1_inplace", "S2_inplace", "LG_heap", "TMV_heap", "AL_heap", "string_heap", "shared_ptr_inplace", "reflike_inplace", "NK_heap"};
+    inline bool is_tracked_type(int k) { return (k >= 1 && k <= 5) || k == 9; }
+    inline int tag_of_type(int k) { return 10 + k; }
+    static_assert(sizeof(RL) <= 2 * sizeof(void*) && std::is_nothrow_move_constructible<RL>::value, "RL must be stored in place");
     static_assert(sizeof(S1) <= 2 * sizeof(void*), "S1 must fit the in-place buffer");
 
     struct MA
@@ -80,6 +111,8 @@ namespace
     template <> struct TypeOf<4> { using type = TMV; static TMV make(uint64_t id) { return TMV(id); } static uint64_t id(const TMV& v) { return v.id; } static void set(TMV& v, uint64_t id) { v.id = id; } };
     template <> struct TypeOf<5> { using type = AL; static AL make(uint64_t id) { return AL(id); } static uint64_t id(const AL& v) { return v.id; } static void set(AL& v, uint64_t id) { v.id = id; } };
     template <> struct TypeOf<6> { using type = std::string; static std::string make(uint64_t id) { return sstr(id); } static uint64_t id(const std::string& v) { return sid(v); } static void set(std::string& v, uint64_t id) { v = sstr(id); } };
+    template <> struct TypeOf<8> { using type = RL; static RL make(uint64_t id) { return RL(&g_cells[id % NCELLS]); } static uint64_t id(const RL& v) { return static_cast<uint64_t>(v.p - g_cells); } static void set(RL& v, uint64_t id) { v.p = &g_cells[id % NCELLS]; } };
+    template <> struct TypeOf<9> { using type = NK; static NK make(uint64_t id) { return NK(id); } static uint64_t id(const NK& v) { return v.id; } static void set(NK& v, uint64_t id) { v.id = id; } };
     template <> struct TypeOf<7> { using type = SP; static SP make(uint64_t id) { return std::make_shared<int>(static_cast<int>(id)); } static uint64_t id(const SP& v) { return v ? static_cast<uint64_t>(*v) : 0; } static void set(SP& v, uint64_t id) { v = std::make_shared<int>(static_cast<int>(id)); } };
 
     template <class F> void with_type(int k, F f)
@@ -93,7 +126,9 @@ namespace
         case 4: f(std::integral_constant<int, 4>()); break;
         case 5: f(std::integral_constant<int, 5>()); break;
         case 6: f(std::integral_constant<int, 6>()); break;
-        default: f(std::integral_constant<int, 7>()); break;
+        case 7: f(std::integral_constant<int, 7>()); break;
+        case 8: f(std::integral_constant<int, 8>()); break;
+        default: f(std::integral_constant<int, 9>()); break;
         }
     }
 
@@ -120,6 +155,8 @@ namespace
             registry().reset();
             registry().sigprefix = "C06";
             tail = "initial/-";
+            for (int i = 0; i < NCELLS; ++i) g_cells[i] = cell_value(i);
+            g_nonconst_copies = 0;
             for (int i = 0; i < 3; ++i)
             {
                 slot[i].prepare(env, env.next());
@@ -127,7 +164,7 @@ namespace
                 if (env.below(4) != 0)
                 {
                     int k = static_cast<int>(env.below(NT));
-                    uint64_t id = fresh();
+                    uint64_t id = canon(k, fresh());
                     with_type(k, [&](auto K) { auto val = TypeOf<decltype(K)::value>::make(id); slot[i].get() = val; });
                     model[i].empty = false; model[i].type = k; model[i].id = id;
                 }
@@ -137,6 +174,7 @@ namespace
         [[noreturn]] void viol(const char* cls, const char* oracle, const std::string& msg) { fail(cls, std::string("C06/") + oracle + "/" + tail, msg); }
         void lifetimes() { try { raise_pending(); } catch (Violation& v) { v.sig += "/" + tail; throw; } }
         uint64_t fresh() { return next_id++; }
+        static uint64_t canon(int k, uint64_t id) { return k == 8 ? id % NCELLS : id; }    // a reference-like value is the cell it designates
         const char* mname(int i) const { return model[i].empty ? "empty" : tnames[model[i].type]; }
 
         struct Scope
@@ -184,9 +222,9 @@ namespace
             if (!slot[i].canaries_ok()) viol("containment", "canary", who + "memory around the object was overwritten");
             MA o = observe(slot[i].get(), who);
             if (!o.same(model[i])) viol("invariant", "state", who + "holds " + show(o) + ", expected " + show(model[i]));
-            if (!o.empty && o.type >= 1 && o.type <= 5)
+            if (!o.empty && is_tracked_type(o.type))
             {
-                const void* p = nullptr; int tag = 10 + o.type;
+                const void* p = nullptr; int tag = tag_of_type(o.type);
                 with_type(o.type, [&](auto K) { p = xtl::any_cast<typename TypeOf<decltype(K)::value>::type>(&slot[i].get()); });
                 if (!registry().is_live(p, tag)) viol("lifetime", "contained-not-live", who + "the contained object is not a live object");
             }
@@ -197,9 +235,17 @@ namespace
             lifetimes();
             for (int i = 0; i < 3; ++i) check_slot(i);
             size_t expect = 0;
-            for (int i = 0; i < 3; ++i) if (!model[i].empty && model[i].type >= 1 && model[i].type <= 5) ++expect;
+            for (int i = 0; i < 3; ++i) if (!model[i].empty && is_tracked_type(model[i].type)) ++expect;
             if (registry().live.size() != expect)
                 viol("lifetime", "population", std::to_string(registry().live.size()) + " tracked objects are live, " + std::to_string(expect) + " are held (leak or lost object)");
+            for (int i = 0; i < NCELLS; ++i)
+                if (g_cells[i] != cell_value(i))
+                    viol("model", "write-through", "cell " + std::to_string(i) + " designated by a reference-like payload was overwritten: the container ran the payload's assignment operator instead of constructing/destroying it");
+        }
+        // copying an any reads its content through a const any&: the payload's copy constructor from a non-const lvalue must not run
+        void no_nonconst_copy(uint64_t before, const char* what)
+        {
+            if (g_nonconst_copies != before) viol("model", "const-dropped", std::string(what) + " copied the content through a non-const lvalue (the payload's T(T&) overload ran)");
         }
 
         // ---- operations -------------------------------------------------------------------------------
@@ -212,8 +258,9 @@ namespace
             int src = (t + 1 + static_cast<int>(st.c % 2)) % 3;
             std::string var = std::string(vn[v]) + "_" + ((v == 1 || v == 2) ? tnames[k] : (v >= 3 ? mname(src) : "-"));
             Scope sc(*this, st, "construct", var);
-            uint64_t id = fresh();
+            uint64_t id = canon(k, fresh());
             MA pre_src = model[src];
+            uint64_t nc0 = g_nonconst_copies;
             slot[t].get().~any();
             slot[t].prepare(env, env.next());
             xtl::any* p = slot[t].ptr();
@@ -240,6 +287,7 @@ namespace
                 SIM_PROBE("constructor_threw");
             }
             model[t] = want;
+            if (v == 3) no_nonconst_copy(nc0, "copy construction of an any");
             if (v == 3) { MA o = observe(slot[src].get(), "copy source: "); if (!o.same(pre_src)) viol("model", "source-changed", "copy construction changed its source to " + show(o)); }
             if (v == 4) settle_moved_from(src, pre_src);
             ++run.changing;
@@ -262,6 +310,7 @@ namespace
             Scope sc(*this, st, move ? "move_assign" : "copy_assign", var);
             MA pre = model[t], pre_src = model[src];
             bool threw = false;
+            uint64_t nc0 = g_nonconst_copies;
             try
             {
                 Active a;
@@ -270,6 +319,7 @@ namespace
             }
             catch (const Injected&) { threw = true; }
             catch (const std::bad_alloc&) { threw = true; }
+            no_nonconst_copy(nc0, move ? "move assignment of an any" : "copy assignment of an any");
             if (src == t) SIM_PROBE(move ? "self_move_assignment" : "self_copy_assignment");
             if (threw)
             {
@@ -299,12 +349,25 @@ namespace
             int t = st.actor % 3;
             int k = static_cast<int>(st.a % NT);
             bool rvalue = st.b & 1;
-            std::string var = std::string(mname(t)) + "_from_" + tnames[k] + (rvalue ? "_rvalue" : "_lvalue");
+            // one in five: the assigned value is the any's own content (a = any_cast<T&>(a), a = std::move(any_cast<T&>(a)))
+            bool own = !model[t].empty && (st.b >> 3) % 5 == 0;
+            if (own) k = model[t].type;
+            std::string var = std::string(mname(t)) + "_from_" + (own ? "own_content" : tnames[k]) + (rvalue ? "_rvalue" : "_lvalue");
             Scope sc(*this, st, "value_assign", var);
             MA pre = model[t];
-            uint64_t id = fresh();
+            uint64_t id = own ? pre.id : canon(k, fresh());
             bool threw = false;
             with_type(k, [&](auto K) {
+                using T = typename TypeOf<decltype(K)::value>::type;
+                if (own)
+                {
+                    SIM_PROBE("value_assignment_from_own_content");
+                    T& mine = xtl::any_cast<T&>(slot[t].get());
+                    try { Active a; if (rvalue) slot[t].get() = std::move(mine); else slot[t].get() = mine; }
+                    catch (const Injected&) { threw = true; }
+                    catch (const std::bad_alloc&) { threw = true; }
+                    return;
+                }
                 auto val = TypeOf<decltype(K)::value>::make(id);
                 try { Active a; if (rvalue) slot[t].get() = std::move(val); else slot[t].get() = val; }
                 catch (const Injected&) { threw = true; }
@@ -325,7 +388,7 @@ namespace
             int t = st.actor % 3;
             int p = static_cast<int>(st.c % 3);
             bool free_fn = st.b & 1;
-            bool inplace_t = !model[t].empty && (model[t].type <= 2 || model[t].type == 7);
+            bool inplace_t = !model[t].empty && (model[t].type <= 2 || model[t].type == 7 || model[t].type == 8);
             std::string var = std::string(free_fn ? "std_" : "member_") + (p == t ? std::string("self_") + mname(t) : std::string(mname(t)) + "_" + mname(p));
             Scope sc(*this, st, "swap", var);
             MA a = model[t], b = model[p];
@@ -339,7 +402,7 @@ namespace
             else
             {
                 model[t] = b; model[p] = a;
-                bool ia = !a.empty && (a.type <= 2 || a.type == 7), ib = !b.empty && (b.type <= 2 || b.type == 7);
+                bool ia = !a.empty && (a.type <= 2 || a.type == 7 || a.type == 8), ib = !b.empty && (b.type <= 2 || b.type == 7 || b.type == 8);
                 if (!a.empty && !b.empty && ia != ib) SIM_PROBE("swap_in_place_with_heap");
                 if (!a.empty && !b.empty && a.type == b.type) SIM_PROBE(ia ? "swap_same_type_in_place" : "swap_same_type_heap");
                 if (a.empty != b.empty) SIM_PROBE("swap_empty_with_nonempty");
@@ -432,16 +495,19 @@ namespace
             int c = (t + 1 + static_cast<int>(st.c % 2)) % 3;
             Scope sc(*this, st, "mutate_copy", mname(t));
             if (model[t].empty) { stats().add("skipped.mutate_copy_of_empty"); check_all(); return; }
+            uint64_t nc0 = g_nonconst_copies;
             slot[c].get() = static_cast<const xtl::any&>(slot[t].get());
+            no_nonconst_copy(nc0, "copy assignment of an any");
             model[c] = model[t];
-            uint64_t id = fresh();
+            uint64_t id = canon(model[t].type, fresh());
+            if (model[t].type == 8 && id == model[t].id) id = (id + 1) % NCELLS;
             with_type(model[t].type, [&](auto K) {
                 using T = typename TypeOf<decltype(K)::value>::type;
                 T& r = xtl::any_cast<T&>(slot[c].get());
                 TypeOf<decltype(K)::value>::set(r, id);
             });
             model[c].id = id;
-            if (model[c].type >= 1 && model[c].type <= 5)
+            if (is_tracked_type(model[c].type))
             {
                 const void* p = nullptr;
                 with_type(model[c].type, [&](auto K) { p = xtl::any_cast<typename TypeOf<decltype(K)::value>::type>(&slot[c].get()); });
@@ -465,8 +531,8 @@ namespace
             settle_moved_from(t, pre);
             if (v == 1)
             {
-                uint64_t id = fresh();
                 int k = static_cast<int>(st.a % NT);
+                uint64_t id = canon(k, fresh());
                 with_type(k, [&](auto K) { auto val = TypeOf<decltype(K)::value>::make(id); slot[t].get() = val; });
                 model[t].empty = false; model[t].type = k; model[t].id = id;
             }
@@ -550,5 +616,5 @@ namespace
         catch (...) { clear_pending(); try { w->teardown(); } catch (...) {} clear_pending(); throw; }
     }
 
-    RegisterCfg reg("int_S1_S2_LG_TMV_AL_string_sharedptr", gen, exec, 1, false);
+    RegisterCfg reg("int_S1_S2_LG_TMV_AL_string_sharedptr_reflike_NK", gen, exec, 1, false);
 }
